@@ -26,13 +26,13 @@ namespace Parmcb
 /-- `find_shortest_odd_cycle_mpi` as the value rank 0 ends up with.  `scheds r` = schedule of rank `r`'s
 `parallel_reduce` (over GLOBAL indices: rank `r` of `P` owns `[sliceLo total P r, sliceHi total P r)` — the theorems assume
 exactly that of `scheds`), `t` = the reduction tree over the ranks `0 … P-1`. -/
-def signedPhaseSearchMpi (g : Graph) (pk : PickFam) (S : List Nat) (scheds : Nat → Sched) (t : RTree) :
+def signedPhaseSearchMpi (g : Graph) (ord : List Nat) (pk : PickFam) (S : List Nat) (scheds : Nat → Sched) (t : RTree) :
     Cyc (List Nat) :=
   match S with
-  | [e] => singleEdgeTbb g pk e
+  | [e] => singleEdgeTbb g ord pk e
   | _ =>
-    if S.length < g.n then mpiPhase (hiddenIndexTbb g pk S S) scheds t
-    else mpiPhase (fun v L => searchSigned g (pk v L) S [] v true v false L) scheds t
+    if S.length < g.n then mpiPhase (hiddenIndexTbb g ord pk S S) scheds t
+    else mpiPhase (fun v L => searchSigned g ord (pk v L) S [] v true v false L) scheds t
 
 /-- `mcb_sva_signed_mpi` on rank 0: `perm` = order in which rank 0's concurrent `push_back`s filled its support vector,
 `scheds k S r`, `trees k S` = schedules and reduction tree of phase `k` -/
@@ -41,7 +41,7 @@ def mcbSignedMpi (g : Graph) (order : List Nat) (pick : Nat → PickFam) (perm :
   let fi := createIndex g order
   let gi := reindex g fi
   let r := mcbSignedCore .mpi fi.dim (perm.map fun i => [i])
-    (fun k S => signedPhaseSearchMpi gi (pick k) S (scheds k S) (trees k S))
+    (fun k S => signedPhaseSearchMpi gi fi.reverse (pick k) S (scheds k S) (trees k S))
   { cycles := translateBack fi.reverse r.cycles, weight := r.weight }
 
 /-! ### tree variants -/
